@@ -154,34 +154,50 @@ func (w *World) spawn(token string, sc *Script, ppid, pgid int, newGroup bool, s
 func (w *World) life(p *Proc) {
 	sc := p.Script
 	start := time.Now()
-	var endC <-chan time.Time
-	if sc.LifeMs >= 0 {
-		tm := time.NewTimer(time.Duration(sc.LifeMs) * time.Millisecond)
-		defer tm.Stop()
-		endC = tm.C
-	}
 	next := 0
 	code, signalled, by := sc.Exit, false, 0
+	emit := func(ch OutChunk) {
+		pp := p.stdout
+		if ch.Stream == 2 {
+			pp = p.stderr
+		}
+		if pp != nil {
+			pp.write(ch.Data)
+		}
+		simlog.Add(simlog.Event{Kind: "os.write", Subj: p.Token, Pid: p.Pid, N: ch.Stream, A: fmt.Sprintf("%q", clip(ch.Data, 60)), Data: ch.Data})
+	}
 loop:
 	for {
-		var outC <-chan time.Time
-		var outTm *time.Timer
+		// exactly one timer per wait: two timers firing at the same fake instant would be
+		// ordered by the Go runtime, not by the simulator
+		isOut := false
+		var at time.Duration = -1
+		if sc.LifeMs >= 0 {
+			at = time.Duration(sc.LifeMs) * time.Millisecond
+		}
 		if next < len(sc.Out) {
-			d := time.Duration(sc.Out[next].AtMs)*time.Millisecond - time.Since(start)
+			o := time.Duration(sc.Out[next].AtMs) * time.Millisecond
+			if at < 0 || o <= at {
+				at, isOut = o, true
+			}
+		}
+		var tmC <-chan time.Time
+		var tm *time.Timer
+		if at >= 0 {
+			d := at - time.Since(start)
 			if d < 0 {
 				d = 0
 			}
-			outTm = time.NewTimer(d)
-			outC = outTm.C
+			tm = time.NewTimer(d)
+			tmC = tm.C
 		}
 		cs := simsync.RecvCase(p.sigCh)
-		i := simsync.Select(simsync.SiteHarness, false, cs, simsync.RecvCase(outC), simsync.RecvCase(endC))
-		if outTm != nil {
-			outTm.Stop()
+		i := simsync.Select(simsync.SiteHarness, false, cs, simsync.RecvCase(tmC))
+		if tm != nil {
+			tm.Stop()
 		}
 		w.enter()
-		switch i {
-		case 0:
+		if i == 0 {
 			sig := cs.Val()
 			p.Sigs = append(p.Sigs, sig)
 			if p.ignores(sig) {
@@ -219,35 +235,15 @@ loop:
 			}
 			w.leave()
 			break loop
-		case 1:
-			ch := sc.Out[next]
-			next++
-			pp := p.stdout
-			if ch.Stream == 2 {
-				pp = p.stderr
-			}
-			if pp != nil {
-				pp.write(ch.Data)
-			}
-			simlog.Add(simlog.Event{Kind: "os.write", Subj: p.Token, Pid: p.Pid, N: ch.Stream, A: fmt.Sprintf("%q", clip(ch.Data, 60)), Data: ch.Data})
-			w.leave()
-		case 2:
-			// flush output scheduled at or before the end of life
-			for next < len(sc.Out) && sc.Out[next].AtMs <= sc.LifeMs {
-				ch := sc.Out[next]
-				next++
-				pp := p.stdout
-				if ch.Stream == 2 {
-					pp = p.stderr
-				}
-				if pp != nil {
-					pp.write(ch.Data)
-				}
-				simlog.Add(simlog.Event{Kind: "os.write", Subj: p.Token, Pid: p.Pid, N: ch.Stream, A: fmt.Sprintf("%q", clip(ch.Data, 60)), Data: ch.Data})
-			}
-			w.leave()
-			break loop
 		}
+		if isOut {
+			emit(sc.Out[next])
+			next++
+			w.leave()
+			continue
+		}
+		w.leave()
+		break loop
 	}
 	w.enter()
 	p.Alive = false
